@@ -229,7 +229,7 @@ for path, v in BAD:
     elif len(samples) < 3:
         samples.append({"path": ".".join(map(str, path)), "value": str(v), "outcome": r[2]})
 GOOD = [(("request_policy", "num_bundles"), 5, 5), (("request_policy", "signature_horizon_days"), 1, 1), (("request_policy", "dns_ttl"), 3600, 3600),
-        (("ksk_policy", "ttl"), 0, 0), (("request_policy", "min_bundle_interval"), "P1W2DT3H4M5S", D(days=9, hours=3, minutes=4, seconds=5)),
+        (("ksk_policy", "ttl"), 0, 0), (("ksk_policy", "ttl"), 1, 1), (("request_policy", "min_bundle_interval"), "P1W2DT3H4M5S", D(days=9, hours=3, minutes=4, seconds=5)),
         (("request_policy", "max_cycle_inception_length"), "PT36H", D(hours=36)), (("request_policy", "approved_algorithms"), ["RSASHA256", "RSASHA512"], ["RSASHA256", "RSASHA512"]),
         (("request_policy", "rsa_approved_key_sizes"), [1024, 65535], [1024, 65535]), (("request_policy", "acceptable_domains"), [".", "example.org"], [".", "example.org"]),
         (("request_policy", "check_chain_overlap"), False, False), (("request_policy", "num_keys_per_bundle"), [1, 1, 1], [1, 1, 1])]
@@ -244,6 +244,13 @@ for path, v, want in GOOD:
         got = getattr(getattr(r[1], path[0]), path[1])
         if got != want:
             fail("valid", f"{'.'.join(map(str, path))} = {v!r} is loaded as {got!r}, not exactly")
+for tag_ in (1, 65535, 65534, 32768):
+    c = copy.deepcopy(BASE)
+    c["keys"]["ksk_current"]["key_tag"] = tag_
+    r = load(c)
+    count("valid-value")
+    if r[0] != "ok" or r[1].ksk_keys["ksk_current"].key_tag != tag_:
+        fail("valid", f"keys.ksk_current.key_tag = {tag_} is inside the documented range 1..65535 but is {'rejected (' + r[2] + ')' if r[0] != 'ok' else 'not loaded exactly'}")
 for name, text, want in [("publish_safety", "P10D", D(days=10)), ("retire_safety", "P1W", D(days=7)), ("max_signature_validity", "P21DT1S", D(days=21, seconds=1)),
                          ("min_validity_overlap", "PT0S", D(0)), ("max_validity_overlap", "P16DT12H30M", D(days=16, hours=12, minutes=30))]:
     c = copy.deepcopy(BASE)
